@@ -1,4 +1,104 @@
-import AdfModel.Api
+/-
+  C04 — Allocation soundness: the bitmap kernel and the allocator contract.
+  Model: AdfModel/Bitmap.lean — `bmIsFree` / `bmSetWord` (adfIsBlockFree / adfSetBlockFree / adfSetBlockUsed:
+  page = (n-2)/4064, word = 1 + ((n-2)/32)%127, bit = (n-2)%32, bit set = free) and `scanFree` (the circular scan
+  of adfGetFreeBlocks from the root block, wrapping lastBlock → 2, stopping back at the root).
+  `getFreeBlocks v nb` in the model is `scanFree table root last (last+2) root nb`, accepted only when it found
+  all `nb` blocks, followed by `setBlockUsed` on each.
+  NOT proved (MANIFEST): that on every reachable state the reachable blocks are exactly the non-free ones; that is
+  checked at every quiescent point of the explored histories by the independent decoder.
+-/
+import AdfProofs.BitmapLemmas
 namespace Adf.C04
-theorem C04_placeholder : True := trivial
+open Adf
+
+/-- marking a block used / free changes the state of that block … -/
+theorem C04_set_same (tbl : List Blk) (n : Nat) (f : Bool) (hwf : TableWF tbl)
+    (hpg : (n - 2) / BM_PAGE_BLOCKS < tbl.length) : bmIsFree (bmSetWord tbl n f) n = f :=
+  bmIsFree_set_same tbl n f hwf hpg
+
+/-- … and of no other block of the volume (no two blocks share a bit) -/
+theorem C04_set_other (tbl : List Blk) (n m : Nat) (f : Bool) (hwf : TableWF tbl) (hn : 2 ≤ n) (hm : 2 ≤ m)
+    (hne : n ≠ m) (hpg : (n - 2) / BM_PAGE_BLOCKS < tbl.length) :
+    bmIsFree (bmSetWord tbl n f) m = bmIsFree tbl m :=
+  bmIsFree_set_other tbl n m f hwf hn hm hne hpg
+
+/-- what the allocator's scan returns: free blocks only, inside [2, last] (never a boot block, never outside
+    the volume), pairwise distinct, at most the number asked for -/
+theorem C04_alloc_contract (tbl : List Blk) (root last fuel nb : Nat) (hroot : 2 < root) (hr : root ≤ last)
+    (hf : last ≤ fuel) :
+    let l := scanFree tbl root last fuel root nb
+    (∀ b ∈ l, bmIsFree tbl b = true ∧ 2 ≤ b ∧ b ≤ last) ∧ l.Nodup ∧ l.length ≤ nb := by
+  simp only
+  rw [scanFree_eq, scanSeq_full root last fuel hroot hr hf]
+  refine ⟨?_, ?_, ?_⟩
+  · intro b hb
+    have hb' := List.mem_of_mem_take hb
+    rw [List.mem_filter] at hb'
+    exact ⟨hb'.2, (mem_circ root last b hroot hr).1 hb'.1⟩
+  · exact ((circ_nodup root last hroot hr).filter _).sublist (List.take_sublist _ _)
+  · exact List.length_take_le _ _
+
+/-- completeness: when the scan comes back with fewer blocks than asked for, it has returned EVERY free block of
+    the volume — the allocator reports "full" only when fewer than `nb` blocks are free -/
+theorem C04_scan_complete (tbl : List Blk) (root last fuel nb : Nat) (hroot : 2 < root) (hr : root ≤ last)
+    (hf : last ≤ fuel) (hshort : (scanFree tbl root last fuel root nb).length < nb) :
+    ∀ b, 2 ≤ b → b ≤ last → bmIsFree tbl b = true → b ∈ scanFree tbl root last fuel root nb := by
+  rw [scanFree_eq, scanSeq_full root last fuel hroot hr hf] at hshort ⊢
+  intro b h2 hl hfree
+  have hall : ((circ root last).filter (bmIsFree tbl)).take nb = (circ root last).filter (bmIsFree tbl) := by
+    apply List.take_of_length_le
+    rw [List.length_take] at hshort
+    omega
+  rw [hall, List.mem_filter]
+  exact ⟨(mem_circ root last b hroot hr).2 ⟨h2, hl⟩, hfree⟩
+
+/-- conversely, when at least `nb` blocks are free the scan finds `nb` of them -/
+theorem C04_scan_succeeds (tbl : List Blk) (root last fuel nb : Nat) (hroot : 2 < root) (hr : root ≤ last)
+    (hf : last ≤ fuel) (henough : nb ≤ ((circ root last).filter (bmIsFree tbl)).length) :
+    (scanFree tbl root last fuel root nb).length = nb := by
+  rw [scanFree_eq, scanSeq_full root last fuel hroot hr hf, List.length_take]
+  omega
+
+/-- marking the blocks of an allocation used: afterwards none of them is free and every other block of the
+    volume is as before -/
+def markUsed (tbl : List Blk) (l : List Nat) : List Blk := l.foldl (fun t b => bmSetWord t b false) tbl
+
+theorem C04_markUsed (l : List Nat) : ∀ (tbl : List Blk), TableWF tbl →
+    (∀ b ∈ l, 2 ≤ b ∧ (b - 2) / BM_PAGE_BLOCKS < tbl.length) →
+    (∀ b ∈ l, bmIsFree (markUsed tbl l) b = false) ∧
+    (∀ m, 2 ≤ m → m ∉ l → bmIsFree (markUsed tbl l) m = bmIsFree tbl m) ∧ TableWF (markUsed tbl l) := by
+  induction l with
+  | nil => intro tbl hwf _; exact ⟨by simp, by simp [markUsed], hwf⟩
+  | cons a l ih =>
+    intro tbl hwf hin
+    have ha := hin a (by simp)
+    have hwf' := bmSetWord_wf tbl a false hwf
+    have hin' : ∀ b ∈ l, 2 ≤ b ∧ (b - 2) / BM_PAGE_BLOCKS < (bmSetWord tbl a false).length := by
+      intro b hb; rw [bmSetWord_length]; exact hin b (by simp [hb])
+    obtain ⟨h1, h2, h3⟩ := ih (bmSetWord tbl a false) hwf' hin'
+    have hunf : markUsed tbl (a :: l) = markUsed (bmSetWord tbl a false) l := rfl
+    rw [hunf]
+    refine ⟨?_, ?_, h3⟩
+    · intro b hb
+      rcases List.mem_cons.mp hb with rfl | hb
+      · by_cases hbl : b ∈ l
+        · exact h1 b hbl
+        · rw [h2 b ha.1 hbl]; exact bmIsFree_set_same tbl b false hwf ha.2
+      · exact h1 b hb
+    · intro m hm hnot
+      have hma : a ≠ m := fun e => hnot (by simp [e])
+      have hml : m ∉ l := fun e => hnot (by simp [e])
+      rw [h2 m hm hml]
+      exact bmIsFree_set_other tbl a m false hwf ha.1 hm hma ha.2
+
+/-- non-vacuity: a 40-block volume (root 20), one page, blocks 2..39 free except 20 and 21: the hypotheses
+    of the contract hold and the first three blocks handed out are 22, 23, 24; asking for 37 fails (36 free) -/
+def smallTbl : List Blk := [[0, 0xFFF3FFFF, 0x3F] ++ List.replicate 125 0]
+
+example : scanFree smallTbl 20 39 41 20 3 = [22, 23, 24] ∧ (scanFree smallTbl 20 39 41 20 37).length = 36 ∧
+          bmIsFree smallTbl 20 = false ∧ bmIsFree smallTbl 39 = true ∧
+          bmIsFree (markUsed smallTbl [22, 23, 24]) 23 = false ∧ bmIsFree (markUsed smallTbl [22, 23, 24]) 25 = true := by
+  decide
+
 end Adf.C04
